@@ -588,7 +588,59 @@ func switchTable(v ssa.Value, field string) map[string]string {
 	case *ssa.Phi:
 		for i, e := range x.Edges {
 			pred := x.Block().Preds[i]
-			put(labelOf(append(guardsOfBlock(pred), lastBranchFact(pred, x.Block())...), func(y ssa.Value) bool { return isNatTypeLoad(y, field) }), addrClass(e))
+			facts := append(guardsOfBlock(pred), lastBranchFact(pred, x.Block())...)
+			// "the two behaviours are equal: reuse the value selected by the other switch": under field == other the
+			// value is what the other switch selects for that same constant
+			expanded := false
+			for _, ft := range facts {
+				cm, ok := normCmp(ft.Cond, ft.Val)
+				if !ok || cm.Op != token.EQL {
+					continue
+				}
+				for _, pr := range [][2]ssa.Value{{cm.X, cm.Y}, {cm.Y, cm.X}} {
+					if !isNatTypeLoad(pr[0], field) {
+						continue
+					}
+					fr, ok := asFieldLoad(pr[1])
+					if !ok || fr.SName != "vnet.NATType" || fr.Field == field {
+						continue
+					}
+					tm := switchTable(e, fr.Field)
+					n := 0
+					for k := range tm {
+						if k != "default" {
+							n++
+						}
+					}
+					if n < 2 {
+						continue
+					}
+					for k, cls := range tm {
+						put(k, cls)
+					}
+					expanded = true
+				}
+			}
+			if expanded {
+				continue
+			}
+			// an edge that is itself selected by the same behaviour (a key helper called in one branch only)
+			if _, isCall := e.(*ssa.Call); isCall {
+				te := switchTable(e, field)
+				n := 0
+				for k := range te {
+					if k != "default" {
+						n++
+					}
+				}
+				if n >= 2 {
+					for k, cls := range te {
+						put(k, cls)
+					}
+					continue
+				}
+			}
+			put(labelOf(facts, func(y ssa.Value) bool { return isNatTypeLoad(y, field) }), addrClass(e))
 		}
 	case *ssa.Call:
 		h := x.Call.StaticCallee()
@@ -678,12 +730,56 @@ func findKeyPhis(f *ssa.Function, field string) []ssa.Value {
 					n++
 				}
 			}
+			if ph, isPhi := v.(*ssa.Phi); isPhi && n >= 2 {
+				// a value that merely reuses, where the two behaviours are equal, the key this field selects
+				// elsewhere is a key of the other behaviour
+				for i, e := range ph.Edges {
+					pred := ph.Block().Preds[i]
+					for _, ft := range append(guardsOfBlock(pred), lastBranchFact(pred, ph.Block())...) {
+						cm, ok := normCmp(ft.Cond, ft.Val)
+						if !ok || cm.Op != token.EQL {
+							continue
+						}
+						fx, okx := asFieldLoad(cm.X)
+						fy, oky := asFieldLoad(cm.Y)
+						if okx && oky && fx.SName == "vnet.NATType" && fy.SName == "vnet.NATType" && fx.Field != fy.Field && (fx.Field == field || fy.Field == field) {
+							te := switchTable(e, field)
+							m := 0
+							for k := range te {
+								if k != "default" {
+									m++
+								}
+							}
+							if m >= 2 {
+								n = 0
+							}
+						}
+					}
+				}
+			}
 			if n >= 2 {
 				out = append(out, v)
 			}
 		})
 	}
-	return out
+	// a value that only feeds another selected value (the key helper called on one edge of the selection) is part of it
+	var kept []ssa.Value
+	for _, v := range out {
+		part := false
+		for _, w := range out {
+			if ph, ok := w.(*ssa.Phi); ok && w != v {
+				for _, e := range ph.Edges {
+					if e == v {
+						part = true
+					}
+				}
+			}
+		}
+		if !part {
+			kept = append(kept, v)
+		}
+	}
+	return kept
 }
 
 func valFunc(v ssa.Value) *ssa.Function {
@@ -1990,7 +2086,9 @@ type helperValue struct {
 
 // helperSuccessValues: v is a result of a private helper with several returns (dst, err := n.inboundDestination(from)):
 // the values it hands back on the returns that do not report an error, each with its return instruction.
-func helperSuccessValues(v ssa.Value) []helperValue {
+func helperSuccessValues(v ssa.Value) []helperValue { return helperSuccessValuesD(v, 0) }
+
+func helperSuccessValuesD(v ssa.Value, depth int) []helperValue {
 	var call *ssa.Call
 	idx := 0
 	switch x := origin(v).(type) {
@@ -2014,6 +2112,14 @@ func helperSuccessValues(v ssa.Value) []helperValue {
 			continue
 		}
 		if e := errorOperand(ret); e != nil && !isNilConst(e) {
+			// "return n.other(x)": both results forwarded from another helper
+			if fw := retValAt(ret, idx); len(fw) == 1 && depth < 4 {
+				ex, ok1 := fw[0].(*ssa.Extract)
+				ee, ok2 := e.(*ssa.Extract)
+				if ok1 && ok2 && ex.Tuple == ee.Tuple {
+					out = append(out, helperSuccessValuesD(ex, depth+1)...)
+				}
+			}
 			continue
 		}
 		rv := retValAt(ret, idx)
